@@ -61,6 +61,20 @@ def gen_case(rng, index, tier):
             cross = True
         case['cross'] = cross
         case['overwrite'] = rng.random() < 0.2
+        if case['overwrite']:
+            # something of the same kind already stands at some destinations
+            # (a directory where a directory comes back, a file for a file)
+            have = set(nd['p'] for nd in L.nodes)
+            for e in entries:
+                if rng.random() < 0.6 and e['loc'] not in have and \
+                        not any(h.startswith(e['loc'] + '/') for h in have):
+                    if e['kind'] in ('tree', 'dir_empty'):
+                        L.add({'p': e['loc'], 't': 'd', 'm': 0o755})
+                        L.add({'p': e['loc'] + '/already-here', 't': 'f', 'c': 'x'})
+                    elif e['kind'] in ('file', 'empty'):
+                        L.add({'p': e['loc'], 't': 'f', 'c': 'occupant'})
+                    e['occupied'] = True
+            case['nodes'] = L.nodes
         case['sel'] = rng.choice(['first', 'last', 'all', 'all'])
     elif cmd == 'empty-days':
         case['days'] = rng.choice([0, 1, 2, 3])
@@ -161,7 +175,10 @@ def run_case(case):
                 ik, pk = trashworld.pair_keys(e)
                 pay0 = snap.subtree(n0, pk)
                 in_trash = snap.subtree(n1, pk) == pay0
-                at_dest = same_payload(snap.subtree(n1, e['loc']), pay0)
+                at_dest = same_payload(snap.subtree(n1, e['loc']), pay0) or \
+                    same_payload(snap.subtree(n1, e['loc'] + '/' + e['name']), pay0)
+                # (onto an existing directory shutil.move() puts the entry
+                # INSIDE it, under the payload's name)
                 if not in_trash and not at_dest:
                     viol('restored-entry-complete-nowhere', entry=e,
                          trash=snap.fmt_diff(snap.sig_diff(pay0, snap.subtree(n1, pk)), 4),
